@@ -44,7 +44,19 @@ def add2d(x):
 
 
 defvjp(det, lambda ans, x: lambda g: add2d(g) * add2d(ans) * T(inv(x)))
-defvjp(slogdet, lambda ans, x: lambda g: add2d(g[1]) * T(inv(x)))
+
+
+def grad_slogdet(ans, x):
+    sign = ans[0]
+    if not anp.iscomplexobj(sign):
+        # the sign of a real determinant is locally constant
+        return lambda g: add2d(g[1]) * T(inv(x))
+    # complex input: sign = det / |det| turns with the phase of the determinant,
+    # d(sign) = 1j * sign * Im(tr(inv(x) dx))
+    return lambda g: add2d(g[1] + 1j * anp.imag(g[0] * sign)) * T(inv(x))
+
+
+defvjp(slogdet, grad_slogdet)
 
 
 def grad_inv(ans, x):
